@@ -55,6 +55,12 @@ def fchebyshev(x, m):
         raise ValueError('Order of Chebyshev polynomial must be at least 1.')
     try:
         dt = x.dtype
+        if dt.kind in 'iub':
+            #
+            # The polynomials are evaluated in floating point; stored in an
+            # integer array T_2(0) = -0.9999... would be truncated to 0.
+            #
+            dt = np.float64
     except AttributeError:
         dt = np.float64
     leg = np.ones((m, n), dtype=dt)
